@@ -14,7 +14,7 @@ EXPLANATION = (
     "written only as spxLdexp(old, int) and the exponent arrays only from integer expressions (no floating multiply/divide touches LP data); "
     "R09.3 the user-level accessors of the real LP reach scaled storage only through an *Unscaled method of SPxLPBase or the ...Internal "
     "accessors documented as scaled, never through the _scaler pointer (which is null after the scaler parameter is switched off); R09.4 "
-    "writeFile(unscale=true) on a scaled LP writes an unscaled copy; R09.5 per-row / per-column arrays of LPRowSetBase / LPColSetBase, the "
+    "writeFile(unscale=true) on a scaled LP writes an unscaled copy; R09.7 doAddRow(s)/doAddCol(s) read the other dimension's exponents only after creating missing columns / rows; R09.5 per-row / per-column arrays of LPRowSetBase / LPColSetBase, the "
     "scale exponents among them, move together in every permutation / removal / resize, and the single-index setters of a scaled LP compare "
     "the new value with the unscaled stored value before skipping an unchanged update. NOT decided: that the scalers choose good exponents, "
     "overflow of ldexp.")
@@ -243,6 +243,14 @@ def subscript_kind(fn, idx, kinds, vec_kind, depth=0):
 
 
 def run(fb, rep, tier):
+    try:
+        _run(fb, rep, tier)
+    finally:
+        pass
+    grow_before_index(fb, rep)
+
+
+def _run(fb, rep, tier):
     rep.extra['explanation'] = EXPLANATION
     rep.extra['assumptions'] = ['maxRowObj is excluded from the exponent table: it is scaled with +r_i although a cost on a slack would call for -r_i; it is always 0 in user LPs',
                                 'the orientation of vector aliases (row vector vs column vector) is taken from their defining accessor call']
@@ -458,3 +466,60 @@ def unchanged_guards(fb, rep):
         pv = f.params[1][0]
         want = '(%s != (scale ? %sUnscaled(i) : %s(i)))' % (pv, q, q)
         rep.check(c == want, 'R09.6', 'SPxSolverBase::%s(int,..)|guard' % nm, '%s:%d' % (f.file, ifs[0].l), c, 'the guard is %s, expected %s: with persistent scaling an update is skipped (or applied) by comparing values from different spaces' % (c, want))
+
+
+def grow_before_index(fb, rep):
+    """R09.7: doAddRow / doAddCol (and the set versions) grow the *other* dimension on demand when the new vector refers to an index that
+    does not exist yet.  Every read of that dimension's scale-exponent array (a subscript, or handing the array to computeScaleExp) must be
+    dominated by the growth: otherwise the exponent of a column / row that is about to be created is read beyond the array."""
+    rep.rule('R09.7', 'in doAddRow(s) / doAddCol(s) the scale exponents of the other dimension are read only after missing columns / rows have been created', floor=6)
+    k = 0
+    for f in sorted(fb.funcs.values(), key=lambda g: (g.name, g.sig)):
+        if not re.match(r'^soplex::SPxLPBase<double>::doAdd(Row|Col)s?$', f.name) or not f.nodes:
+            continue
+        other = 'LPColSetBase' if 'Row' in f.short else 'LPRowSetBase'
+        # growth: a call <other>::add(empty) with one argument of LPColBase/LPRowBase type inside a loop
+        grow = [n for n in f.nodes if n.k == 'CXXMemberCallExpr' and n.short == 'add' and other in (n.n or '') and len(n.args()) == 1
+                and re.search(r'LP(Col|Row)Base<', n.args()[0].t or '') and any(a.k in ('ForStmt', 'WhileStmt') for a in f.ancestors(n))]
+        # the exponent array of the other dimension: local references bound to <other>::scaleExp
+        aliases = set()
+        for n in f.nodes:
+            if n.k == 'VarDecl' and n.c:
+                for x in n.kids[0].walk():
+                    if x.k == 'MemberExpr' and x.dk == 'field' and x.short == 'scaleExp' and other in (x.n or ''):
+                        aliases.add(n.n)
+        reads = []
+        for n in f.nodes:
+            if n.k == 'DeclRefExpr' and n.n in aliases and not f.in_assert(n):
+                p_ = n.parent
+                while p_ is not None and p_.k in ('ImplicitCastExpr', 'ParenExpr'):
+                    p_ = p_.parent
+                if p_ is not None and p_.k != 'VarDecl':
+                    reads.append(n)
+        if not grow or not reads:
+            rep.unrec('R09.7', f.short + '(%d)' % len(f.params), f.where(), 'growth of the other dimension (%d) or reads of its scale exponents (%d) not found' % (len(grow), len(reads)))
+            continue
+        g = Graph(f, None)
+        dom = g.dominators()
+        gb = set(g.block_of(x) for x in grow)
+        # the loop that contains the growth: its header dominates everything after the loop; accept if some block of a growth loop
+        # (the for statement that encloses the add) dominates the read and is not the read's own block, or the growth precedes in-block
+        heads = set()
+        for x in grow:
+            loops = [a for a in f.ancestors(x) if a.k in ('ForStmt', 'WhileStmt')]
+            outer = loops[-1]
+            hb = g.block_of(outer.kid('cond')) if outer.kid('cond') is not None else None
+            if hb is not None:
+                heads.add((hb, outer))
+        for r in reads:
+            k += 1
+            rb = g.block_of(r)
+            ok = False
+            for hb, outer in heads:
+                inside = any(x.i == r.i for x in outer.walk())
+                if not inside and rb in dom and hb in dom[rb]:
+                    ok = True
+            rep.check(ok, 'R09.7', '%s(%d)|%s@%d' % (f.short, len(f.params), r.n, r.l), '%s:%d' % (f.file, r.l), 'the growth loop dominates this read',
+                      '%s reads %s (the scale exponents of the %s) at line %d before / while the missing %s are created: for an index that does not exist yet the read is beyond the array' % (f.short, r.n, 'columns' if other == 'LPColSetBase' else 'rows', r.l, 'columns' if other == 'LPColSetBase' else 'rows'))
+    if k < 6:
+        raise AnalysisBroken('R09.7: only %d reads of the other dimension\'s scale exponents found in doAdd*' % k)
